@@ -33,6 +33,7 @@ VECTOR_DATA = {"operator[]", "at", "data", "front", "back", "begin", "end", "cbe
 LOOPS = {"ForStmt", "WhileStmt", "DoStmt", "CXXForRangeStmt"}
 CONDS = {"IfStmt", "SwitchStmt", "ConditionalOperator", "BinaryConditionalOperator", "CXXTryStmt"}
 GUARDS = ("lock_guard", "scoped_lock", "unique_lock")
+LOCKTYPE_RE = __import__("re").compile(r"^\s*(mutable\s+)?((cappuccino::)?mutex<|std::(recursive_|shared_|timed_|recursive_timed_|shared_timed_)?mutex\b)")
 POINTERISH = __import__("re").compile(r"\*|&|iterator|_Node|element\b")
 ATOMIC_RE = __import__("re").compile(r"^\s*(const\s+|volatile\s+|mutable\s+)*(std::)?(atomic<|atomic_(?:bool|flag|char|schar|uchar|short|ushort|int|uint|long|ulong|llong|ullong|size_t|ptrdiff_t|intptr_t|uintptr_t|int\d+_t|uint\d+_t)\b)")
 
@@ -89,6 +90,7 @@ class ClassInfo:
         self.by_name = {}    # name -> [ids]
         self.public = []     # ids of public methods with bodies
         self.atomic = set()  # fields whose (desugared) type is a std::atomic: their accesses cannot race
+        self.lock_name = "m_lock"   # the object's mutex: the one field of (wrapper) mutex type, whatever it is called
         access = "private"
         for m in inner(spec):
             k = m.get("kind")
@@ -105,6 +107,12 @@ class ClassInfo:
                 for s in inner(m):
                     if s.get("kind") == "CXXMethodDecl":
                         self.add(s, access)
+        self.find_lock()
+
+    def find_lock(self):
+        cands = [f for f, t in self.fields.items() if LOCKTYPE_RE.search(t)]
+        if len(cands) == 1:
+            self.lock_name = cands[0]
 
     def add(self, m, access):
         if not any(c.get("kind") == "CompoundStmt" for c in inner(m)):
@@ -177,8 +185,8 @@ class Walker:
     def guard_decl(self, v, out):
         """v: VarDecl of a guard type. Returns True if it was understood (tokens appended)."""
         t = v.get("type", {}).get("qualType", "")
-        if not mentions(v, "m_lock"):
-            out.append(("unknown", "guard on something other than m_lock"))
+        if not mentions(v, self.ci.lock_name):
+            out.append(("unknown", "guard on something other than the object's mutex"))
             return
         if mentions(v, "try_to_lock") or mentions(v, "adopt_lock"):
             out.append(("unknown", "try_to_lock/adopt_lock"))
@@ -222,7 +230,7 @@ class Walker:
     def field_access(self, n, parents, out):
         """n: MemberExpr on this naming a field; parents: the chain of nodes above it, nearest last."""
         name = n["name"]
-        if name == "m_lock":
+        if name == self.ci.lock_name:
             # handed to a guard's constructor (seen by guard_decl), or locked / unlocked directly
             for p in reversed(parents):
                 k = p.get("kind")
@@ -538,7 +546,7 @@ def lock_fields(docs):
     for d in docs:
         if d.get("kind") == "ClassTemplateSpecializationDecl" and d.get("name") in CLASSES and inner(d):
             ci = ClassInfo(d)
-            out[ci.name] = ci.fields.get("m_lock", "?")
+            out[ci.name] = ci.fields.get(ci.lock_name, "?")
     return out
 
 
